@@ -346,10 +346,14 @@ class InterpolatableFunction(ABC):
         if not self.hasInterpolation() or bNoExtrapolation:
             res = self._evaluateDirectly(x)
         else:
-            ## Now we have something to extrapolate
+            ## Now we have something to extrapolate. Direct evaluations below may
+            ## trigger an adaptive update of the table: answer the whole call with the
+            ## table that was in force when it was made.
+            interpolated = self._interpolatedFunction
+            rangeMin, rangeMax = self._rangeMin, self._rangeMax
 
-            xLower = x <= self._rangeMin
-            xUpper = x >= self._rangeMax
+            xLower = x <= rangeMin
+            xUpper = x >= rangeMax
 
             # Figure out shape of the result. If we are vector valued, need an extra axis
             if self._RETURN_VALUE_COUNT > 1:
@@ -362,33 +366,33 @@ class InterpolatableFunction(ABC):
             ## points just outside of it) take the interpolated value
             xInside = ~(xLower | xUpper)
             if np.any(xInside):
-                res[xInside, ...] = self.evaluateInterpolation(x[xInside])
+                res[xInside, ...] = np.asarray(interpolated(x[xInside]))
 
             ## Lower range
             if np.any(xLower):
                 match self.extrapolationTypeLower:
                     case EExtrapolationType.ERROR:
                         # TODO better error message, this is nonsensible if x is array or list
-                        raise ValueError(f"Out of bounds: {x} < {self._rangeMin}")
+                        raise ValueError(f"Out of bounds: {x} < {rangeMin}")
                     case EExtrapolationType.NONE:
                         res[xLower, ...] = self._evaluateDirectly(x[xLower])
                     case EExtrapolationType.CONSTANT:
-                        res[xLower, ...] = self.evaluateInterpolation(self._rangeMin)
+                        res[xLower, ...] = np.asarray(interpolated(rangeMin))
                     case EExtrapolationType.FUNCTION:
-                        res[xLower, ...] = self.evaluateInterpolation(x[xLower])
+                        res[xLower, ...] = np.asarray(interpolated(x[xLower]))
 
             ## Upper range
             if np.any(xUpper):
                 match self.extrapolationTypeUpper:
                     case EExtrapolationType.ERROR:
                         # TODO better error message, this is nonsensible if x is array or list
-                        raise ValueError(f"Out of bounds: {x} > {self._rangeMax}")
+                        raise ValueError(f"Out of bounds: {x} > {rangeMax}")
                     case EExtrapolationType.NONE:
                         res[xUpper, ...] = self._evaluateDirectly(x[xUpper])
                     case EExtrapolationType.CONSTANT:
-                        res[xUpper, ...] = self.evaluateInterpolation(self._rangeMax)
+                        res[xUpper, ...] = np.asarray(interpolated(rangeMax))
                     case EExtrapolationType.FUNCTION:
-                        res[xUpper, ...] = self.evaluateInterpolation(x[xUpper])
+                        res[xUpper, ...] = np.asarray(interpolated(x[xUpper]))
 
         return res
 
